@@ -523,3 +523,66 @@ Fixpoint rows_find (k : bytes) (acc : list row) : option Z :=
   end.
 Definition counter_fold (rows : list row) : list row := fold_left (fun acc r => counter_addrow r acc) rows [].
 Definition entry_key3 (e : centry) : bytes := ekey [] e ++ colon ++ p_addr (fst (fst e)).
+
+(* ------------------------------------------------------------------ where the producers of a request come from *)
+Definition lup (A : Type) : Type := list (bytes * fetch A).
+
+(* a configured nsqd in direct mode: does /stats answer, the topic names it lists (for the
+   request's filter), what /info says (None = /info fails) *)
+Record dnode := mkDN { dn_stats_ok : bool; dn_topics : list bytes; dn_info : option prod }.
+
+(* where the producers of a request come from *)
+Inductive stage1 :=
+| SLookupTopic (ups : lup (list (option prod)))   (* /lookup?topic= of every nsqlookupd: GetLookupdTopicProducers *)
+| SLookupNodes (ups : lup (list (option prod)))   (* /nodes of every nsqlookupd: GetLookupdProducers *)
+| SDirectTopic (t : bytes) (ups : list (bytes * dnode))   (* GetNSQDTopicProducers *)
+| SDirectNodes (ups : list (bytes * dnode)).              (* GetNSQDProducers *)
+
+
+(* ---- producers of a request *)
+Definition host_of (addr : bytes) : bytes :=
+  (fix go (l : bytes) : bytes := match l with [] => [] | c :: r => if (c =? 58)%N then [] else c :: go r end) addr.
+Definition port_of (addr : bytes) : bytes :=
+  (fix go (l : bytes) : bytes := match l with [] => [] | c :: r => if (c =? 58)%N then r else go r end) addr.
+
+Definition pinfo_of (p : prod) : pinfo := mkP (http_addr p) (pr_host p).
+
+Definition direct_topic_fetch (t : bytes) (u : bytes * dnode) : bytes * fetch (list pinfo) :=
+  let d := snd u in
+  (fst u,
+   if negb (dn_stats_ok d) then FFail
+   else if negb (smem t (dn_topics d)) then FOk []
+   else match dn_info d with
+        | None => FFail
+        | Some i =>
+            (* BroadcastAddress == "": host and port of the configured address; Hostname == "": its host *)
+            let i' := match pr_bcast i with
+                      | [] => mkProd (host_of (fst u)) (port_of (fst u)) (pr_tcp i) (pr_host i) [] (pr_version i) [] []
+                      | _ => i end in
+            let hn := match pr_host i' with [] => host_of (fst u) | h => h end in
+            FOk [mkP (http_addr i') hn]
+        end).
+Definition direct_nodes_fetch (u : bytes * dnode) : bytes * fetch (list prod) :=
+  let d := snd u in
+  (fst u,
+   match dn_info d with
+   | None => FFail
+   | Some i => if dn_stats_ok d
+               then FOk [mkProd (pr_bcast i) (pr_http i) (pr_tcp i) (pr_host i) [] (pr_version i) (dn_topics d) []]
+               else FFail
+   end).
+
+Definition stage1_producers (s : stage1) : agg (list pinfo) :=
+  match s with
+  | SLookupTopic ups =>
+      match topic_producers_pure ups with AHard => AHard | AOk ps n => AOk (map pinfo_of ps) n end
+  | SLookupNodes ups =>
+      match lookupd_producers_pure ups with AHard => AHard | AOk es n => AOk (map (fun e => pinfo_of (ne_prod e)) es) n end
+  | SDirectTopic t ups =>
+      let f := map (direct_topic_fetch t) ups in
+      error_rule (length f) (nfailed f) (flat_map snd (answers f))
+  | SDirectNodes ups =>
+      let f := map direct_nodes_fetch ups in
+      error_rule (length f) (nfailed f) (map pinfo_of (flat_map snd (answers f)))
+  end.
+
